@@ -442,7 +442,17 @@ func (inst *Instance) Open() error {
 	inst.handlerG, inst.workerG = nil, nil
 	inst.Pending = nil
 	inst.Current = ""
-	wm, err := masswallet.NewWalletManager(inst.srv, inst.DB, inst.Cfg, w.Params, inst.PubPass)
+	var wm *masswallet.WalletManager
+	func() {
+		// this runs on the root goroutine: a panic of the wallet's own opening
+		// code is the wallet's, not the harness's
+		defer func() {
+			if r := recover(); r != nil {
+				err = fmt.Errorf("panic while opening the wallet: %v\n%s", r, firstLines(string(debug.Stack()), 30))
+			}
+		}()
+		wm, err = masswallet.NewWalletManager(inst.srv, inst.DB, inst.Cfg, w.Params, inst.PubPass)
+	}()
 	if err != nil {
 		return fmt.Errorf("NewWalletManager: %w", err)
 	}
